@@ -140,7 +140,8 @@ func timed(d time.Duration, f func()) (returned bool, pan string) {
 	}
 }
 
-const wfWatchdog = 5 * time.Second
+// wfWatchdogIdle: the bound on an idle machine; every use is scaled by the measured load (timing.go)
+const wfWatchdogIdle = 5 * time.Second
 
 func execWf(f []string) zv.Out {
 	if len(f) != 9 {
@@ -204,6 +205,8 @@ func execWf(f []string) zv.Out {
 	var viol []string
 	var mu sync.Mutex
 	addViol := func(s string) { mu.Lock(); viol = append(viol, s); mu.Unlock() }
+	wfWatchdog := wd(wfWatchdogIdle)
+	addTiming := func(s string) { addViol(timingViol(s)) } // did-not-return: a candidate until confirmed alone
 	finish := func() zv.Out {
 		mu.Lock()
 		defer mu.Unlock()
@@ -238,7 +241,7 @@ func execWf(f []string) zv.Out {
 	chV, chE := hs(vic, vicRaw), hs(evil, evilRaw)
 	var rv, re hres
 	gotV, gotE := false, false
-	deadline := time.After(2 * time.Second)
+	deadline := time.After(wd(2 * time.Second))
 	closed := false
 	for !(gotV && gotE) {
 		select {
@@ -252,7 +255,7 @@ func execWf(f []string) zv.Out {
 				if gotV {
 					who = "the peer of the " + victim
 				}
-				addViol(fmt.Sprintf("Handshake of %s did not return within %v after both transports were closed (write failure: %s at transport write %s)", who, wfWatchdog, mode, at))
+				addTiming(fmt.Sprintf("Handshake of %s did not return within %v after both transports were closed (write failure: %s at transport write %s)", who, wfWatchdog, mode, at))
 				return finish()
 			}
 			o.Tags = append(o.Tags, "hs:stalled-until-close")
@@ -322,7 +325,7 @@ func execWf(f []string) zv.Out {
 				}
 			}
 		}()
-		ok, pan := timed(2*time.Second, func() {
+		ok, pan := timed(wd(2*time.Second), func() {
 			for _, s := range steps {
 				for i := 0; i < s.cnt; i++ {
 					if s.typ < 0 {
@@ -347,7 +350,7 @@ func execWf(f []string) zv.Out {
 				addViol(victim + " panicked in Read: " + p)
 			}
 			readDone <- ""
-		case <-time.After(time.Second):
+		case <-time.After(wd(time.Second)):
 			o.Tags = append(o.Tags, "data:stalled-until-close")
 		}
 		closeBoth()
@@ -357,7 +360,7 @@ func execWf(f []string) zv.Out {
 				addViol(victim + " panicked in Read: " + p)
 			}
 		case <-time.After(wfWatchdog):
-			addViol(fmt.Sprintf("Read of the %s did not return within %v after both transports were closed (its writes fail: %s; peer sent %s)", victim, wfWatchdog, mode, f[8]))
+			addTiming(fmt.Sprintf("Read of the %s did not return within %v after both transports were closed (its writes fail: %s; peer sent %s)", victim, wfWatchdog, mode, f[8]))
 			return finish()
 		}
 		if _, n := fcn.stats(); n > 0 {
@@ -393,13 +396,17 @@ func execWf(f []string) zv.Out {
 			addViol(fmt.Sprintf("%s panicked in %s after a write failure: %s", victim, name, pan))
 		}
 		if !ok {
-			addViol(fmt.Sprintf("%s of the %s did not return within %v after both transports were closed (write failure: %s at %s; peer sent %s)", name, victim, wfWatchdog, mode, at, f[8]))
+			addTiming(fmt.Sprintf("%s of the %s did not return within %v after both transports were closed (write failure: %s at %s; peer sent %s)", name, victim, wfWatchdog, mode, at, f[8]))
 			return finish()
 		}
 	}
 	// the peer's side too
-	if ok, pan := timed(wfWatchdog, func() { evil.Close() }); !ok || pan != "" {
-		addViol(fmt.Sprintf("Close of the peer of the %s did not return / panicked: %s", victim, pan))
+	ok, pan := timed(wfWatchdog, func() { evil.Close() })
+	if pan != "" {
+		addViol(fmt.Sprintf("Close of the peer of the %s panicked: %s", victim, pan))
+	}
+	if !ok {
+		addTiming(fmt.Sprintf("Close of the peer of the %s did not return within %v after both transports were closed", victim, wfWatchdog))
 	}
 	return finish()
 }
